@@ -887,6 +887,22 @@ theorem orphan_of_empty_group {sec : List Rec} {k : GKey} (hk : k ∈ groupKeys 
     rw [he] at this
     simp at this
 
+/-- an RRSIG whose proof changes is the one its RRset's verdict points at -/
+theorem relabelOne_proof_sig (sec : List Rec) (vs : List (GKey × GV)) (i : Nat) (r : Rec) (p : Proof)
+    (hs : r.isSig = true) (h0 : r.proof ≠ p) (h : (relabelOne sec vs i r).proof = p) :
+    ∃ j, vs.lookup r.gkey = some (.done p (some j)) := by
+  unfold relabelOne at h
+  split at h
+  · rename_i p' idx hl
+    rw [if_pos hs] at h
+    split at h
+    · rename_i hidx
+      simp only at h; subst h
+      have : idx = some (sigOrdinal sec i r) := by simpa using hidx
+      exact ⟨_, this ▸ hl⟩
+    · exact absurd h h0
+  · exact absurd h h0
+
 theorem firstAbort_panic {vs : List (GKey × GV)} (h : firstAbort vs = some "panic") :
     ∃ kv ∈ vs, kv.2 = .abort "panic" := by
   unfold firstAbort at h
